@@ -601,7 +601,31 @@ fn miri_mode(args: &[String]) -> i32 {
         if let Case::C12(h) = &case {
             ops += h.ops.len() as u64;
         }
-        sigs.insert(refcodec::util::fnv1a(serde_json::to_string(&case).unwrap().as_bytes()));
+        // (no JSON here: serialising under the interpreter costs more than the case itself)
+        sigs.insert(match &case {
+            Case::C11(c) => refcodec::util::fnv1a(c.bytes.as_bytes()) ^ refcodec::util::fnv1a(c.ty.as_bytes()),
+            Case::C12(h) => {
+                let mut f = refcodec::util::Fnv::default();
+                f.update_u64(h.cap as u64 ^ (h.data_seed << 8) ^ h.target as u64);
+                for op in &h.ops {
+                    f.update_u64(match op {
+                        c12::Op::Wb => 1,
+                        c12::Op::W { k } => 2 + ((*k as u64) << 8),
+                        c12::Op::R { k, huge } => 3 + ((*k as u64) << 8) + ((*huge as u64) << 40),
+                        c12::Op::Wr { r, k } => 4 + ((*k as u64) << 8) + ((*r as u64) << 40),
+                        c12::Op::Rem => 5,
+                        c12::Op::Pb => 6,
+                        c12::Op::Rb => 7,
+                        c12::Op::Pn { n } => 8 + ((*n as u64) << 8),
+                        c12::Op::Rn { n } => 9 + ((*n as u64) << 8),
+                        c12::Op::Ps { k, .. } => 10 + ((*k as u64) << 8),
+                        c12::Op::Rs { k, .. } => 11 + ((*k as u64) << 8),
+                        c12::Op::Ri { k } => 12 + ((*k as u64) << 8),
+                    });
+                }
+                f.0
+            }
+        });
         if let Some(class) = o.class {
             println!("MIRI-VIOLATION class={class} detail={} case={}", o.detail.replace('\n', " "), serde_json::to_string(&case).unwrap());
             return 1;
